@@ -65,14 +65,18 @@ def alias(src, new_id):
 
 
 ALLOC_CORE = ["U64GroupedBitmap::*", "BtreeBitmap::*", "BuddyAllocator::*", "BS::*", "RegionTracker::*", "Allocators::*", "InMemoryState::*", "DatabaseHeader::*",
-              "PageNumber::*", "lemma_*", "bits_in_range", "buddy_page", "next_higher_order", "calculate_usable_order", "min_u8", "max_u32"]
+              "PageNumber::*", "TransactionalMemory::try_shrink", "TransactionalMemory::free_helper", "TransactionalMemory::free", "lemma_*", "bits_in_range", "buddy_page", "next_higher_order", "calculate_usable_order", "min_u8", "max_u32"]
 LAYOUT = ["RegionLayout::*", "DatabaseLayout::*", "round_up_to_multiple_of", "lemma_mul_le", "lemma_div_exact", "lemma_round_up"]
 
 reg = {
     "units": {
         "alloc": {"overlay": "units/alloc.ovl", "canaries": ["canary_alloc"],
                   # executable functions defined in the overlay rather than extracted from /repo: rule helpers (T4)
-                  "helpers": ["xxh3_checksum", "div_ceil_u32", "pow2_u32", "vec_reverse", "min_u8", "max_u32", "min_u32"]},
+                  "helpers": ["xxh3_checksum", "div_ceil_u32", "pow2_u32", "vec_reverse", "min_u8", "max_u32", "min_u32",
+                              # models of what the page-manager protocol functions call into (Mutex, storage trace, unpersisted set)
+                              "lock", "drop", "gt_id", "clone", "check_io_errors", "flush", "resize", "sync_file", "close", "write_barrier",
+                              "invalidate_cache", "cancel_pending_write", "clear", "extend", "claim", "remove", "write_header",
+                              "debug_assert_no_dirty_pages", "flush_shutdown_header"]},
         "types_sep": {"overlay": "units/types_sep.ovl", "canaries": ["canary_types_sep"], "helpers": ["common_prefix_len"]},
         # the page-level checksum walk over an abstract page store
         "merkle": {"overlay": "units/merkle.ovl", "canaries": ["canary_merkle"],
@@ -80,8 +84,6 @@ reg = {
         # glue code verified against assumed, uninterpreted callee contracts (tree_ok)
         "dbverify": {"overlay": "units/dbverify.ovl", "canaries": ["canary_dbverify"],
                      "helpers": ["get_data_root", "get_system_root", "new", "clone", "untracked", "verify_checksums"]},
-        # the two storage entry points are modelled by a ghost trace (assumed contracts, trusted base T9)
-        "commit": {"overlay": "units/commit.ovl", "canaries": ["canary_commit"], "helpers": ["flush", "write_header"]},
     },
     "kani_files": {
         "h_header.rs": "src/tree_store/page_store/header.rs",
@@ -144,33 +146,37 @@ P["C14"] = {
     "verus": [{"unit": "alloc", "functions": ALLOC_CORE + LAYOUT}],
     "kani": [],
     "explanation": "Every clause of the statement is a postcondition over the set of free pages (free_set = {p | st().cov(0,p)}) of the REAL bodies of bitmap.rs, buddy_allocator.rs, region.rs and allocate_helper_retry, extracted from /repo on every run and verified by Verus for all sizes, orders and states: blocks handed out lie inside the region and were free (alloc/alloc_inner, and alloc_lowest with its allocate-compare-free-split loops), refusal only when nothing of that order or larger is free (with lemma_bridge: no aligned free block exists), free makes exactly the block's pages free and merges with free buddies (I2), record_alloc marks exactly the block or refuses leaving the state unchanged, I1 (no page free at two orders) and I2 (buddies always merged) are established by new() and preserved; the region tracker never reports full a region holding a suitable free block (TRK) - established by Allocators::new, preserved by allocate_helper_retry.",
-    "not_decided": "the statements of TransactionalMemory::free_helper outside the extracted fragment (mutex, debug bookkeeping, cache invalidation); serialisation round trip beyond the bounded native check C14-X-ser (to_vec/from_bytes are external_body for Verus); the bodies of the resize family and of highest_free_order (see assumptions); minimality of alloc_lowest's result (its contract is alloc's: the returned block was free, exactly it was removed)",
+    "not_decided": "the debug-only bookkeeping of TransactionalMemory::free_helper (rule R9; the rest of the function is verified whole); serialisation round trip beyond the bounded native check C14-X-ser (to_vec/from_bytes are external_body for Verus); the bodies of the resize family and of highest_free_order (see assumptions); minimality of alloc_lowest's result (its contract is alloc's: the returned block was free, exactly it was removed)",
     "assumptions": ["BuddyAllocator::resize and BuddyAllocator::highest_free_order carry ASSUMED contracts (external_body: an iterator-adapter chain, and a body that assigns self.len last so that the shape invariant does not hold at its inner calls); bounded native checks C14-X-resize / C14-X-hfo run the real bodies against the assumed contracts. BtreeBitmap::resize and RegionTracker::resize are VERIFIED (their iter_mut loops are turned into index loops by extraction rule R14). Allocators::resize_to is VERIFIED against these contracts: it preserves wf and TRK, gives every region the size the new layout says, builds new regions for the capacity of a full region, and leaves unchanged regions untouched"],
 }
 P["C20"] = {
     "level": "proof",
     "verus": [{"unit": "alloc", "functions": LAYOUT + ["BuddyAllocator::trailing_free_pages", "BuddyAllocator::find_free_order", "PageNumber::*",
-                                              "InMemoryState::try_shrink", "InMemoryState::get_region", "InMemoryState::allocators", "InMemoryState::allocators_mut",
+                                              "TransactionalMemory::try_shrink", "TransactionalMemory::commit", "TransactionalMemory::close", "Mutex::lock", "drop", "InMemoryState::get_region", "InMemoryState::allocators", "InMemoryState::allocators_mut",
                                               "DatabaseHeader::*", "Allocators::resize_to", "Allocators::lemma_resize_shrink", "Allocators::lemma_grow_step_*", "lemma_pow2_shift"]}],
     "kani": [K["C20-L1"], K["C20-L2a"], K["C20-L2b"], K["C20-L3a"], K["C20-L3b"]],
-    "explanation": "Kernel: (A1) every page of every region of a valid layout ends inside layout.len() (lemma_page_in_bounds over the real layout.rs accessors); (A2) reduce_last_region shortens the layout by exactly the pages cut (plus the region header when the region disappears) and recalculate(file_len) never extends past the file; (A3) calculate(d) offers at least d usable bytes; (A4) never shrinks below a page still in use: the pages trailing_free_pages reports are all free, and the REAL try_shrink cuts at most those pages from the last region (reduce_last_region), hands resize_to a layout whose removed pages are all free, keeps the allocator state consistent with the header layout, and never lengthens the layout; (L1) the I/O-failure latch is inductive and nothing reaches the backend once it is set; (L2) close() reaches the backend once and nothing afterwards; (L3) the read-only wrapper forwards no mutation.",
-    "not_decided": "'exactly once' across Database / transaction hand-off on threads; failing opens through Builder; page numbers followed from a corrupted branch page; the storage.resize call that follows try_shrink in commit (whole-program)",
+    "explanation": "Kernel: (A1) every page of every region of a valid layout ends inside layout.len() (lemma_page_in_bounds over the real layout.rs accessors); (A2) reduce_last_region shortens the layout by exactly the pages cut (plus the region header when the region disappears) and recalculate(file_len) never extends past the file; (A3) calculate(d) offers at least d usable bytes; (A4) never shrinks below a page still in use: the pages trailing_free_pages reports are all free, and the REAL try_shrink cuts at most those pages from the last region (reduce_last_region), hands resize_to a layout whose removed pages are all free, keeps the allocator state consistent with the header layout, and never lengthens the layout; the REAL TransactionalMemory::commit truncates the file (storage.resize) only after the header carrying the shorter layout has been written and synced, to exactly that layout's length; the REAL TransactionalMemory::close reaches the backend's close() exactly once, as the last event, also when the shutdown writes failed; (L1) the I/O-failure latch is inductive and nothing reaches the backend once it is set; (L2) close() reaches the backend once and nothing afterwards; (L3) the read-only wrapper forwards no mutation.",
+    "not_decided": "'exactly once' across Database / transaction hand-off on threads; failing opens through Builder; page numbers followed from a corrupted branch page; TransactionalMemory::grow (file growth before the larger layout is adopted) and flush_shutdown_header (assumed not to close the backend)",
 }
 P["C08"] = {
     "level": "proof",
     "kani": [alias("C20-L1", "C08-K1"), alias("C20-L2a", "C08-K2")],
-    "explanation": "Kernel: once any backend call has failed every later len/read/set_len/sync_data/write is refused without reaching the backend (one symbolic step from an arbitrary latch state = induction over call sequences of any length); write_best_effort neither sets nor bypasses the latch; PreviousIo vs DatabaseClosed by the closed flag; after close() nothing reaches the backend.",
-    "not_decided": "every failure index in every history; what commit / begin_write / shutdown do with the latch; state after reopen; that callers consult the latch",
+    "verus": [{"unit": "alloc", "functions": ["TransactionalMemory::commit", "TransactionalMemory::non_durable_commit", "Mutex::lock", "drop"]}],
+    "assumptions": ["T9 (storage model of the alloc unit): every fallible PagedCachedFile entry point is refused without reaching the storage once the latch is set, sets the latch when it fails, and check_io_errors() reports exactly the latch - the latch itself is what the Kani harnesses C08-K1/K2 prove on the real CheckedBackend"],
+    "explanation": "Kernel: once any backend call has failed every later len/read/set_len/sync_data/write is refused without reaching the backend (one symbolic step from an arbitrary latch state = induction over call sequences of any length); (V) the REAL TransactionalMemory::commit and non_durable_commit consult the latch before anything else: with the latch set they return Err and change nothing (no event reaches the storage, no header is published, the unpersisted set is untouched), and non_durable_commit acknowledges (Ok) exactly when the latch is clear; write_best_effort neither sets nor bypasses the latch; PreviousIo vs DatabaseClosed by the closed flag; after close() nothing reaches the backend.",
+    "not_decided": "every failure index in every history; what begin_write / shutdown / WriteTransaction::commit_inner do with the latch; state after reopen; that callers above TransactionalMemory consult the latch",
 }
 P["C01"] = {
     "level": "proof",
     "kani": [K["C01-K1"], K["C01-K2"], K["C01-K3"], K["C01-K4"], K["C01-K4b"], K["C01-K6a"], K["C01-K6b"]],
     "verus": [{"unit": "alloc", "functions": ["DatabaseLayout::recalculate", "DatabaseLayout::len", "RegionLayout::len", "lemma_round_up", "lemma_div_exact", "lemma_mul_le"]},
-              {"unit": "commit", "functions": ["TransactionalMemory::commit_core", "DatabaseHeader::*", "lemma_xor1"]},
+              {"unit": "alloc", "functions": ["TransactionalMemory::commit", "TransactionalMemory::non_durable_commit", "TransactionalMemory::try_shrink", "DatabaseHeader::*", "lemma_xor1",
+                                              "Mutex::lock", "drop", "TransactionId::gt_id"]},
               {"unit": "dbverify", "functions": ["Database::verify_checksums"]}],
-    "assumptions": ["T9: TransactionalMemory::write_header hands the 320-byte image of exactly the header it is given to the storage layer, and PagedCachedFile::flush makes everything handed over before it durable; each appends its event to the ghost trace on success and its event or nothing on failure (assumed contracts of the commit unit; the page cache itself is not verified)"],
-    "explanation": "Kernel of the crash argument of docs/design.md: (K5) the REAL statements of TransactionalMemory::commit between staging the commit and the final sync (fragment extraction) produce exactly W(h1) [F if two_phase] W(h2) F, where h1 is the old header with the new commit staged in the secondary slot and the OLD god byte, and h2 differs from h1 only in the primary bit and the 2PC bit; on a failing write or sync only a prefix of that sequence reaches the storage (the flip never precedes the sync it depends on), and the header handed back for publication is h2; (K1) a written commit slot decodes to itself and verifies; (K2) the commit point is ONE byte: flipping primary / 2PC / recovery flags changes only byte 9; (K3) slot selection never returns a slot that failed verification, keeps the primary under 2PC, otherwise the newer valid slot wins; (K4) with recovery_required the layout is rebuilt from the file length whatever the stored counts were (page size 4096; the unbounded counterpart is Verus DatabaseLayout::recalculate: the rebuilt layout never extends past the file); (K6) transaction ids strictly increase and reserving a repair id never lowers the next id.",
-    "not_decided": "2^W write subsets, page data and checksums reaching the cache before the first header write (finalize_dirty_checksums, whole-program), what the page cache does with writes and flushes (assumed, T9), publication of the new header into the shared state, non_durable_commit, histories, recovery re-crash",
+    "assumptions": ["T9: TransactionalMemory::write_header hands the 320-byte image of exactly the header it is given to the storage layer, and PagedCachedFile::flush makes everything handed over before it durable; each appends its event to the ghost trace on success and its event or nothing on failure (assumed contracts of the storage model in the alloc unit; the page cache itself is not verified)",
+                    "M1: std::sync::Mutex is modelled for ONE thread: lock() never fails and lends the protected value, drop(guard) returns it unchanged; the functions that reach state through &self take &mut self in the unit (rule RX on the signature); DatabaseHeader::clone copies every field; a 64-bit target (global size_of usize == 8)"],
+    "explanation": "Kernel of the crash argument of docs/design.md: (K5) the REAL body of TransactionalMemory::commit (whole function, over a one-thread model of the state mutex and a ghost trace of the storage events) produces exactly W(h1) [F if two_phase] W(h2) F [Resize(len) if the commit trimmed the file], where h1 is the header (after the optional trim: same slots and flags, never a longer layout) with the new commit staged in the secondary slot and the OLD god byte, and h2 differs from h1 only in the primary bit and the 2PC bit; on a failing write or sync only a prefix of that sequence reaches the storage (the flip never precedes the sync it depends on, the file is cut only after the header with the shorter layout is durable); on success h2 is published, reads return to the primary and the unpersisted set is emptied; on failure the published header is NOT the new commit; with the I/O latch set nothing happens at all; non_durable_commit stages the commit in the in-memory secondary slot, sets read_from_secondary, adds the pages to the unpersisted set and reaches the storage with nothing; (K1) a written commit slot decodes to itself and verifies; (K2) the commit point is ONE byte: flipping primary / 2PC / recovery flags changes only byte 9; (K3) slot selection never returns a slot that failed verification, keeps the primary under 2PC, otherwise the newer valid slot wins; (K4) with recovery_required the layout is rebuilt from the file length whatever the stored counts were (page size 4096; the unbounded counterpart is Verus DatabaseLayout::recalculate: the rebuilt layout never extends past the file); (K6) transaction ids strictly increase and reserving a repair id never lowers the next id.",
+    "not_decided": "2^W write subsets, page data and checksums reaching the cache before the first header write (finalize_dirty_checksums, whole-program), what the page cache does with writes and flushes (assumed, T9), begin_writable / clear_recovery_required / flush_shutdown_header (they hold the state lock across calls on self, which the one-thread Mutex model cannot express), WriteTransaction::durable_commit above TransactionalMemory::commit, concurrency, histories, recovery re-crash",
 }
 P["C12"] = {
     "level": "proof",
@@ -201,10 +207,11 @@ P["C06"] = {
     "level": "proof",
     "verus": [{"unit": "alloc", "functions": ["BuddyAllocator::alloc", "BuddyAllocator::alloc_inner", "BuddyAllocator::free", "BuddyAllocator::free_inner",
                                               "BuddyAllocator::record_alloc", "BuddyAllocator::record_alloc_inner", "BuddyAllocator::new", "BS::*",
-                                              "InMemoryState::allocate_helper_retry", "lemma_*"]}],
+                                              "InMemoryState::allocate_helper_retry", "TransactionalMemory::free_helper", "TransactionalMemory::free", "TransactionalMemory::free_if_unpersisted",
+                                              "TransactionalMemory::claim_unpersisted", "Mutex::lock", "lemma_*"]}],
     "kani": [K["C06-K1"], K["C06-K2"], alias("C10-F6a", "C06-K1b")],
     "native": [dict(NATIVE["X-unp3"], id="C06-X-unp3"), dict(NATIVE["X-unp4"], id="C06-X-unp4"), dict(NATIVE["X-pins3"], id="C06-X-pins3"), dict(NATIVE["X-pins4"], id="C06-X-pins4")],
-    "explanation": "Kernel: no block is handed out twice (alloc returns a subset of the free set and removes exactly it - shared with C14); freed-page records are keyed (transaction, page) lexicographically so the reclaimer's range ..(free_until, 0) can never contain a record of a transaction >= free_until; the page-list record returns what was stored.",
+    "explanation": "Kernel: no block is handed out twice (alloc returns a subset of the free set and removes exactly it - shared with C14); freed-page records are keyed (transaction, page) lexicographically so the reclaimer's range ..(free_until, 0) can never contain a record of a transaction >= free_until; the page-list record returns what was stored; the REAL free_if_unpersisted releases a page at once only when it is in the unpersisted set (allocated by a non-durable commit, so no durable root names it), removes it from that set together with the release, and otherwise changes nothing; free_helper (whole function) makes exactly the block's pages free in its region and touches neither the header, nor another region, nor the storage.",
     "not_decided": "the accounting equation over histories, readers and savepoints; conditional_free; the in-memory bookkeeping only BOUNDED (native, never counted as proved): UnpersistedState (allocations_after(t) returns exactly the allocations of later transactions, claim drops page and record together, data_freed_in_range / drop_data_freed_after bounds) and the TransactionTracker pin counts that define the oldest live reader",
 }
 P["C07"] = {
